@@ -54,7 +54,27 @@ def run(ctx):
     for cname, p, loose, dp in WARN:
         warn_param(ctx, cname, p, loose, dp)
     adwin_epsilon(ctx)
+    wiring(ctx)
     ctx.assumptions += sorted(set(ASSUMED))
+
+
+def wiring(ctx):
+    """'The same detector with a stricter threshold': the threshold the guards read is the constructor argument itself - every
+    value the caller may pass, including falsy ones such as 0, reaches the attribute unchanged (a remapping such as
+    `threshold or default` makes the effective threshold non-monotone in the argument)."""
+    seen = set()
+    pairs = [(c_, p_) for c_, p_, _s, _cell in DRIFT] + [(c_, p_) for c_, p_, _l, _d in WARN] + [("ADWIN", "delta"), ("ADWINAccuracy", "delta")]
+    for cname, p in pairs:
+        if (cname, p) in seen:
+            continue
+        seen.add((cname, p))
+        fi = ctx.prog.lookup(ctx.prog.cls(cname), "__init__")
+        if p not in fi.params():
+            raise AnalysisError("%s.__init__ has no parameter %s (threshold table out of date)" % (cname, p))
+        tr = ctx.trace(cname, "__init__")
+        v = tr.final.attrs.get(p) if tr.final is not None else None
+        ctx.ob("FWD-init", cname + ".__init__", "the threshold attribute %s is the constructor argument itself" % p, v == P(p),
+               "self.%s is %s after construction" % (p, q.short(v, 80) if v is not None else "unset"))
 
 
 ASSUMED = []
